@@ -10,7 +10,7 @@ RULE = (
     "per base mesh the complete pair space: {reflexive, copy, twin from the same source, one longitude changed, "
     "one latitude changed, two corners of one face swapped, one connectivity entry replaced, one padding entry replaced by a node (and the reverse), one extra all-padding column, one extra node, one "
     "node fewer (unused), one extra face, one face fewer, same arrays read through another format (UGRID dataset), "
-    "non-Grid operands} x both operand orders x {==, !=}; plus histories: a copy (or the original) edited in place after copy() in one connectivity entry / longitude / latitude, and two grids built from the same array objects of which one gets a coordinate replaced through the node_lon / node_lat setter (the untouched grid must still equal a never-touched reference). Oracle: equal iff same format and identical node_lon, "
+    "non-Grid operands} x both operand orders x {==, !=}; plus histories: a copy (or the original) edited in place after copy() in one connectivity entry / longitude / latitude, and two grids built from the same array objects of which one gets a coordinate replaced through the node_lon / node_lat setter (the untouched grid must still equal a never-touched reference); derived quantities computed on one side only; dask-backed grids after Grid.chunk() (equal and single-entry-different pairs, chunked vs in-memory). Oracle: equal iff same format and identical node_lon, "
     "node_lat, face_node_connectivity. Non-trivial = a twin differing in exactly one array from the base."
 )
 ASSUMPTIONS = ["twins are built from independently copied arrays through Grid.from_topology / a UGRID dataset"]
@@ -201,5 +201,34 @@ def run_case(ctx, case):
         judge("same_arrays_then_setter_on_second:first_vs_reference", first, reference, True, {"what": what})
         third = second.copy()
         judge("same_arrays_then_setter_on_second:copy_of_second", second, third, True, {"what": what})
+    # (3) derived quantities asked for on ONE side only: equal grids stay equal, different grids stay different
+    TOUCH = ["face_lon", "face_areas", "edge_node_connectivity", "bounds", "node_x", "face_face_connectivity", "edge_lon", "node_face_connectivity"]
+    pick = [TOUCH[int(j)] for j in rng.choice(len(TOUCH), size=3, replace=False)]
+    left, right = mk(lon, lat, conn), mk(lon, lat, conn)
+    early_copy = left.copy()
+    for nm in pick:
+        try:
+            v = getattr(left, nm)
+            np.asarray(v.values) if hasattr(v, "values") else v
+        except Exception as e:
+            ctx.observe("touch_raised:" + nm)
+    judge("derived_on_one_side", left, right, True, {"touched": "+".join(sorted(pick))})
+    judge("derived_on_one_side:copy_taken_before", left, early_copy, True, {"touched": "+".join(sorted(pick))})
+    judge("derived_on_one_side:copy_taken_after", left, left.copy(), True, {"touched": "+".join(sorted(pick))})
+    judge("derived_on_one_side:vs_one_lon", left, mk(l2, lat, conn), False, {"touched": "+".join(sorted(pick))})
+    # (4) dask-backed grids (Grid.chunk()): same judgement as for the in-memory ones
+    try:
+        ch = lambda g_: (g_.chunk(), g_)[1]  # noqa: E731  (chunk() converts in place)
+        A, B = ch(mk(lon, lat, conn)), ch(mk(lon, lat, conn))
+        judge("chunked_pair", A, B, True)
+        judge("chunked_pair:one_lon", A, ch(mk(l2, lat, conn)), False)
+        judge("chunked_pair:one_lat", A, ch(mk(lon, l3, conn)), False)
+        judge("chunked_pair:swap_in_face", A, ch(mk(lon, lat, c2)), False)
+        judge("chunked_vs_in_memory", A, mk(lon, lat, conn), True)
+        judge("chunked_vs_in_memory:one_lon", A, mk(l2, lat, conn), False)
+        judge("chunked_pair:copy", A, A.copy(), True)
+        ctx.observe("chunked_pairs")
+    except Exception as e:
+        ctx.check("no_exception", False, {"history": "chunked", "exc": core.exc_sig(e)}, {"exc": repr(e)})
     ctx.observe("histories")
     ctx.sample({"mesh": case["mesh"], "twins": [t[0] for t in twins]})
